@@ -1,6 +1,7 @@
 package zv
 
 import (
+	"strconv"
 	"bytes"
 	"fmt"
 	"go/constant"
@@ -39,6 +40,7 @@ const (
 	ivTuple // T
 	ivAgg   // array value, P = cell holding the elements
 	ivSlice // P = backing array cell (whole array)
+	ivMap   // M = entries of a constant map (package-level table), keyed by mapKey
 )
 
 type IVal struct {
@@ -50,6 +52,24 @@ type IVal struct {
 	T      []IVal
 	NonNil bool
 	Lo, Hi int64 // ivSlice: window into the backing array
+	M      map[string]IVal
+	MZero  *IVal // ivMap: the zero value of the element type
+}
+
+// mapKey renders a key value for constant-map lookups ("" when the key is not evident).
+func mapKey(v IVal) string {
+	switch v.K {
+	case ivInt:
+		return "i:" + strconv.FormatInt(v.I, 10)
+	case ivStr, ivBytes:
+		return "s:" + v.S
+	case ivBool:
+		if v.B {
+			return "b:1"
+		}
+		return "b:0"
+	}
+	return ""
 }
 
 type ICell struct {
@@ -318,6 +338,41 @@ func (it *Interp) staticValue(v ssa.Value, cell *ICell, in *ssa.Function, depth 
 		it.staticValue(inner, cell, in, depth+1)
 	case *ssa.MakeInterface:
 		it.staticValue(x.X, cell, in, depth+1)
+	case *ssa.MakeMap:
+		// a map literal: every MapUpdate on it in the initialiser with an evident key and value
+		m := map[string]IVal{}
+		good := true
+		if x.Referrers() != nil {
+			for _, r := range *x.Referrers() {
+				mu, ok := r.(*ssa.MapUpdate)
+				if !ok || mu.Map != ssa.Value(x) {
+					continue
+				}
+				kc, ok1 := mu.Key.(*ssa.Const)
+				if !ok1 {
+					good = false
+					continue
+				}
+				tmp := newCell(mu.Value.Type())
+				it.staticValue(mu.Value, tmp, in, depth+1)
+				k := mapKey(it.constVal(kc))
+				if k == "" {
+					good = false
+					continue
+				}
+				m[k] = cellValue(tmp)
+			}
+		}
+		if good {
+			mt, _ := types.Unalias(x.Type()).Underlying().(*types.Map)
+			z := IVal{K: ivOpaque, S: "zero"}
+			if mt != nil {
+				z = zeroOf(mt.Elem())
+			}
+			cell.V = IVal{K: ivMap, M: m, MZero: &z, NonNil: true}
+		} else {
+			cell.V = IVal{K: ivOpaque, S: "map initialiser"}
+		}
 	default:
 		if !cell.aggregate() {
 			cell.V = IVal{K: ivOpaque, S: "initialiser " + v.Name()}
@@ -581,6 +636,25 @@ func (it *Interp) run(fn *ssa.Function, args []IVal, depth int) ([]IVal, error) 
 					env[x] = cellValue(base.P.Fields[x.Field])
 				} else {
 					env[x] = IVal{K: ivOpaque, S: "field"}
+				}
+			case *ssa.Lookup:
+				base, idx := get(x.X), get(x.Index)
+				k := mapKey(idx)
+				switch {
+				case base.K == ivMap && k != "":
+					v, found := base.M[k]
+					if !found && base.MZero != nil {
+						v = *base.MZero
+					}
+					if x.CommaOk {
+						env[x] = IVal{K: ivTuple, T: []IVal{v, bi(found)}}
+					} else {
+						env[x] = v
+					}
+				case (base.K == ivStr || base.K == ivBytes) && idx.K == ivInt && idx.I >= 0 && idx.I < int64(len(base.S)):
+					env[x] = IInt(int64(base.S[idx.I]))
+				default:
+					env[x] = IVal{K: ivOpaque, S: "lookup"}
 				}
 			case *ssa.Extract:
 				t := get(x.Tuple)
